@@ -16,7 +16,7 @@ func init() {
 // the list of differences (order included: the JSON report is written in this order, and an
 // ignore file must keep matching) does not depend on map iteration order
 func VerifC07DiffOrder() {
-	kind := vChoice("kind", 6)
+	kind := vChoice("kind", 7)
 	var a, b *spec.Swagger
 	switch kind {
 	case 0: // spec-level aspects
@@ -80,6 +80,31 @@ func VerifC07DiffOrder() {
 			if vBool2("third") {
 				sw.Definitions["Other"] = other
 			}
+			return sw
+		}
+		a, b = mk(false), mk(true)
+	case 6: // two (or three) responses of one operation refer to the same definition, which changed
+		mk := func(changed bool) *spec.Swagger {
+			leafT := "string"
+			if changed {
+				leafT = "integer"
+			}
+			leaf := spec.Schema{}
+			leaf.Type = spec.StringOrArray{"object"}
+			lp := spec.Schema{}
+			lp.Type = spec.StringOrArray{leafT}
+			leaf.Properties = map[string]spec.Schema{"v": lp}
+			op := &spec.Operation{}
+			op.Responses = &spec.Responses{}
+			r := spec.Response{}
+			r.Description = "ok"
+			r.Schema = spec.RefSchema("#/definitions/Leaf")
+			op.Responses.StatusCodeResponses = map[int]spec.Response{200: r, 201: r}
+			if vBool2("third.response") {
+				op.Responses.StatusCodeResponses[404] = r
+			}
+			sw := vSpecWithOp("/a", op)
+			sw.Definitions = spec.Definitions{"Leaf": leaf}
 			return sw
 		}
 		a, b = mk(false), mk(true)
